@@ -601,7 +601,8 @@ fn main() {
             let text = std::fs::read_to_string(&args[2]).expect("read");
             let bits: u64 = args.get(3).and_then(|s| s.parse().ok()).unwrap_or(0xfff);
             let cfg = Config::new(bits);
-            let o = run_case(&cfg, &text, &mut rng, 8);
+            let nvals: usize = std::env::var("VERIF_NVALS").ok().and_then(|s| s.parse().ok()).unwrap_or(8);
+            let o = run_case(&cfg, &text, &mut rng, nvals);
             if let Some(why) = &o.rejected { println!("REJECTED\t{}", why); }
             report(&cfg, &text, &o);
         },
